@@ -357,6 +357,7 @@ package errbase
 //@   ensures result.err == err
 //@   ensures result.redactable ==> (bufIsRedactable && self.redactableOutput)
 //@   ensures result.depth == (withDepth ? depth : 0)
+//@   assumes[C06] wfEntry(result)
 
 //@ method (*state).formatRecursive
 //@   props C05 C09 C03 C13
@@ -371,24 +372,28 @@ package errbase
 // redactableOutput is set carries the sink obligation "well-formed redactable fragment" (generated
 // by the verifier at the write, see redactableSink); the contracts below give the executor what
 // it needs to reach those writes.
-// ASSUMED (T7, meaning of the flag): an entry is flagged redactable only for buffers produced
-// through redact's printer (collectEntry: redactable ==> bufIsRedactable && redactableOutput is
-// proved; that formatRecursive passes bufIsRedactable only after printing through safePrinter is
-// read off the code, not proved)
-//@ axiom wfr_redactable_entry: forall e formatEntry :: {e.head} e.redactable ==> wfR(strOf(e.head)) && wfR(strOf(e.details))
+// The list invariant wfEntries (every entry flagged redactable holds well-formed redactable bytes) is
+// established by formatRecursive from the one ASSUMED clause of collectEntry (T7: bufIsRedactable
+// means the buffer was filled through redact's printer and state.Write), and required by the
+// functions that copy entries into the final buffer.
+//@ spec func wfEntry(e formatEntry) bool = e.redactable ==> (wfR(strOf(e.head)) && wfR(strOf(e.details)))
+//@ spec func wfEntries(es []formatEntry) bool = forall i int :: 0 <= i && i < len(es) ==> wfEntry(es[i])
 
 //@ method (*state).printEntry
 //@   props C06 C05
+//@   requires[C06] wfEntry(entry)
 //@   assigns heap state.finalBuf
 
 //@ method (*state).formatSingleLineOutput
 //@   props C06 C05
+//@   requires[C06] wfEntries(self.entries)
 //@   assigns heap state.finalBuf
 //@   loop 1: invariant 0 - 1 <= i && i < len(self.entries)
 
 //@ method (*state).formatEntries
 //@   props C06 C05 C09
 //@   requires len(self.entries) >= 1
+//@   requires[C06] wfEntries(self.entries)
 //@   assigns heap state.finalBuf
 //@   loop 1: invariant 0 - 1 <= i && i < len(self.entries) - 1
 //@   loop 3: invariant 0 - 1 <= i && i < len(self.entries)
